@@ -8,6 +8,7 @@ import JSight.BridgeCK2Types
 import JSight.BridgeCK2
 import JSight.BridgeCK3Fuel
 import JSight.BridgeCK3False
+import JSight.BridgeCK4Tree
 /-!
 # C04 — Check accepts a schema only if its own EXAMPLE obeys its rules
 
@@ -712,5 +713,106 @@ example : tokOK .int (sb "1") = true ∧ (∀ n cn, lookupT chainTs n = some cn 
   refine ⟨by decide +kernel, ?_, by decide +kernel⟩
   exact lookup_class chainTs (fun cn => headOK cn = true) (by decide +kernel)
 end BridgeEx3
+
+/-! ### Bridge (A)∩(C), fourth part: KEY SHORTCUTS whose type is an alias
+
+`BridgeCK4Keys.lean` (`actualRootType` of the two models: (A)'s `Compile.actualRoot`, (C)'s `CK.actualRoot` / `CK.actualLoop`;
+(A)'s fuel is enough), `BridgeCK4Tree.lean` (tree and type table on the class `xrk` ⊇ `xr`). -/
+
+open BridgeCK in
+/-- **C04_key_root_type_agrees** (`actualRootTypeVisiting`): on tables in relation `EnvRelN` whose roots the loops can
+read (`headOK`), for any path `vis` of pairwise different defined names walked so far and any amounts of fuel that leave
+`|table| + 2` units minus that path on each side, (C)'s `CK.actualRoot` on the dump of the type `n` ANSWERS (`some`: not
+out of fuel) and its answer is (A)'s `Compile.actualRoot`, `none` read as `mixed` (`normJ`) — alias chains `@k = @s` of any
+length, or-shortcuts `@k = @a | @b` (the same root type on every branch, else mixed; (C) compares by `eraseDups`, (A) by
+`all (· == r)`), cycles (`mixed` on both sides) and undefined names (`mixed`) included. -/
+theorem C04_key_root_type_agrees (ts : Compile.Types) (env : CK.Env) (hE : EnvRelN ts env)
+    (hT : ∀ n cn, Compile.lookupT ts n = some cn → headOK cn = true)
+    (fA fC : Nat) (vis : List String) (n : String) (cn : Compile.CN) (hl : Compile.lookupT ts n = some cn)
+    (hnd : vis.Nodup) (hv : ∀ v ∈ vis, nameOK v ∧ (Compile.lookupT ts v).isSome = true)
+    (hA : ts.length + 2 ≤ fA + vis.length) (hC : ts.length + 2 ≤ fC + vis.length) :
+    CK.actualRoot env fC (vis.map name) (dumpNode cn).hd.info = some (normJ (Compile.actualRoot ts fA vis n)) :=
+  actual_agree ts env hE hT fA fC vis n cn hl hnd hv hA hC
+
+open BridgeCK in
+/-- **C04_key_root_type_fuel_enough**: `Compile.checkFuel` IS enough for (A)'s `actualRoot` — with `checkFuel` units
+(≥ `|table| + 2`) the key-shortcut test `actualRoot … != some .str` of `Compile.checkNode` gives what it gives with ANY
+larger amount: the silent branch `| 0, _, _ => none` ("out of fuel = mixed") never decides, on any table whose type
+names are single-byte and whose roots are `headOK`. No repair of `Compile.lean` was needed here. -/
+theorem C04_key_root_type_fuel_enough (ts : Compile.Types) (hb : ∀ t ∈ ts, byteChars t.1)
+    (hT : ∀ t ∈ ts, headOK t.2 = true) (r : Option Compile.CN) (f : Nat) (hf : Compile.checkFuel r ts ≤ f)
+    (n : String) :
+    (Compile.actualRoot ts (Compile.checkFuel r ts) [] n != some .str) = (Compile.actualRoot ts f [] n != some .str) := by
+  have h0 : ts.length + 2 ≤ Compile.checkFuel r ts := by unfold Compile.checkFuel; omega
+  have hE := envRelN_ext ts [] hb (fun u hu => by cases hu)
+  have := actualA_fuel_enough ts _ hE (lookup_class ts (fun cn => headOK cn = true) hT)
+    (Compile.checkFuel r ts) f h0 (by omega) n
+  rw [← normJ_str, ← normJ_str, this]
+
+open BridgeCK in
+/-- `xrk ⊇ xr`: the class of `C04_models_agree_compiled_keys` contains the class of `C04_models_agree_compiled` -/
+theorem C04_xrk_contains_xr (ts : Compile.Types) (cn : Compile.CN) (h : xr ts cn = true) : xrk ts cn = true :=
+  xr_sub ts cn h
+
+open BridgeCK in
+/-- **C04_models_agree_compiled_keys** — `C04_models_agree_compiled` with the hypothesis `keyDirect` gone: the class
+`xrk` is `xr` where the type a KEY shortcut names may be ANY named type of the table — a type shortcut `@k = @s`, an
+or-shortcut `@k = @a | @b`, chains and cycles of them of any length (`actualRootType` follows the references: the key type
+must resolve to a string root, else 1304; undefined: 1302). On this class `checkA root ts` =
+`CK.checkSchema noOracles (dumpOf root ts)` read back: the same verdict, the same first error code; the equation
+excludes "out of fuel" on both sides ((C)'s `crash "actualRootType"`, (A)'s `unsupported "fuel"`), and (A)'s silent
+"out of fuel = mixed" inside `actualRoot` is not reached (`C04_key_root_type_fuel_enough`). Still outside: the `email`
+validator, `any` on a type shortcut. -/
+theorem C04_models_agree_compiled_keys (root : Option Compile.CN) (ts : Compile.Types)
+    (hroot : ∀ r, root = some r → xrk ts r = true)
+    (hts : ∀ t ∈ ts, xrk ts t.2 = true ∧ byteChars t.1 ∧ (name t.1).head? = some 64)
+    (hnd : (ts.map (·.1)).Nodup) :
+    resOf (checkC root ts) = some (checkA root ts) :=
+  agree_typed_k root ts hroot hts hnd
+
+namespace BridgeEx4
+open BridgeCK Compile BridgeEx3
+def aliasOf (n : String) : CN := .ref [n] false .mixed none false
+/-- `{@k: 1}` -/
+def kRoot : CN := keyRoot
+/-- `@k = @s`, `@s = "x"`: accepted; the class `xrk` holds, `xr` does not (`keyDirect` fails) -/
+def tsAlias : Types := [("@k", aliasOf "@s"), ("@s", litS "\"x\"")]
+/-- `@k = @n`, `@n = 4`: 1304 -/
+def tsNum : Types := [("@k", aliasOf "@n"), ("@n", litI "4" [])]
+/-- `@k = @k2`, `@k2 = @k`: a cycle — mixed, 1304 -/
+def tsCyc : Types := [("@k", aliasOf "@k2"), ("@k2", aliasOf "@k")]
+/-- `@k = @s | @n`: two different roots — mixed, 1304; `@k = @s | @s2`: both strings — accepted -/
+def tsOr : Types := [("@k", orShort ["@s", "@n"]), ("@s", litS "\"x\""), ("@n", litI "4" [])]
+def tsOrS : Types := [("@k", orShort ["@s", "@s2"]), ("@s", litS "\"x\""), ("@s2", aliasOf "@s")]
+/-- a chain of three aliases and an undefined key type -/
+def tsChain : Types := [("@k", aliasOf "@a"), ("@a", aliasOf "@b"), ("@b", aliasOf "@s"), ("@s", litS "\"x\"")]
+
+def cls (ts : Types) : Bool :=
+  xrk ts kRoot && ts.all (fun t => xrk ts t.2 && decide (byteChars t.1) && ((name t.1).head? == some 64)) &&
+    decide ((ts.map (·.1)).Nodup)
+
+example : cls tsAlias = true ∧ cls tsNum = true ∧ cls tsCyc = true ∧ cls tsOr = true ∧ cls tsOrS = true ∧
+    cls tsChain = true ∧ xr tsAlias kRoot = false ∧ xr tsOr kRoot = false := by decide +kernel
+example : checkC (some kRoot) tsAlias = .ok ∧ (codeOfA (checkA (some kRoot) tsAlias) = none ∧ isUnsupported (checkA (some kRoot) tsAlias) = false) ∧
+    checkC (some kRoot) tsNum = .err 1304 0 0 none ∧ codeOfA (checkA (some kRoot) tsNum) = some 1304 ∧
+    checkC (some kRoot) tsCyc = .err 1304 0 0 none ∧ codeOfA (checkA (some kRoot) tsCyc) = some 1304 ∧
+    checkC (some kRoot) tsOr = .err 1304 0 0 none ∧ codeOfA (checkA (some kRoot) tsOr) = some 1304 ∧
+    checkC (some kRoot) tsOrS = .ok ∧ (codeOfA (checkA (some kRoot) tsOrS) = none ∧ isUnsupported (checkA (some kRoot) tsOrS) = false) ∧
+    checkC (some kRoot) tsChain = .ok ∧ (codeOfA (checkA (some kRoot) tsChain) = none ∧ isUnsupported (checkA (some kRoot) tsChain) = false) ∧
+    checkC (some kRoot) [("@s", litS "\"x\"")] = .err 1302 0 0 none ∧
+    codeOfA (checkA (some kRoot) [("@s", litS "\"x\"")]) = some 1302 := by decide +kernel
+/-- the theorem instantiated on the aliasOf, the cycle and the or-shortcut -/
+example : resOf (checkC (some kRoot) tsAlias) = some (checkA (some kRoot) tsAlias) :=
+  C04_models_agree_compiled_keys _ _ (fun r h => by cases h; decide +kernel) (by decide +kernel) (by decide +kernel)
+example : resOf (checkC (some kRoot) tsCyc) = some (checkA (some kRoot) tsCyc) :=
+  C04_models_agree_compiled_keys _ _ (fun r h => by cases h; decide +kernel) (by decide +kernel) (by decide +kernel)
+example : resOf (checkC (some kRoot) tsOr) = some (checkA (some kRoot) tsOr) :=
+  C04_models_agree_compiled_keys _ _ (fun r h => by cases h; decide +kernel) (by decide +kernel) (by decide +kernel)
+/-- non-vacuity of `C04_key_root_type_agrees` / `_fuel_enough`: the chain table, the empty path, `checkFuel` units -/
+example : (∀ t ∈ tsChain, byteChars t.1) ∧ (∀ t ∈ tsChain, headOK t.2 = true) ∧
+    tsChain.length + 2 ≤ checkFuel (some kRoot) tsChain + ([] : List String).length ∧
+    Compile.actualRoot tsChain (checkFuel (some kRoot) tsChain) [] "@k" = some .str ∧
+    Compile.actualRoot tsChain 3 [] "@k" = none := by decide +kernel
+end BridgeEx4
 
 end Props.C04
